@@ -30,4 +30,14 @@ Lemma nth_error_nth' (d : A) (l : list A) n : n < length l -> nth_error l n = So
 Proof.
   revert n; induction l as [|a l IH]; intros [|n] H; simpl in *; try lia; auto. apply IH; lia.
 Qed.
+Lemma NoDup_app_inv' (l1 l2 : list A) : NoDup (l1 ++ l2) ->
+  NoDup l1 /\ NoDup l2 /\ forall a, In a l1 -> In a l2 -> False.
+Proof.
+  induction l1 as [|c l IH]; simpl; intros H.
+  - repeat split; [constructor|exact H|intros a []].
+  - inversion H as [|? ? Hn Hd]; subst. destruct (IH Hd) as (H1 & H2 & H3). repeat split.
+    + constructor; [|exact H1]. intros Hin. apply Hn, in_or_app. left; exact Hin.
+    + exact H2.
+    + intros a [<-|Ha] Hb; [apply Hn, in_or_app; right; exact Hb|eapply H3; eassumption].
+Qed.
 End ListX.
